@@ -457,7 +457,7 @@ voc_write_header (SF_PRIVATE *psf, int calc_length)
 		rate_const = 256 - 1000000 / psf->sf.samplerate ;
 
 		/* First type marker, length, rate_const and compression */
-		psf_binheader_writef (psf, "e1311", BHW1 (VOC_SOUND_DATA), BHW3 ((int) (psf->datalength + 1)), BHW1 (rate_const), BHW1 (0)) ;
+		psf_binheader_writef (psf, "e1311", BHW1 (VOC_SOUND_DATA), BHW3 ((int) (psf->datalength + 2)), BHW1 (rate_const), BHW1 (0)) ;
 		}
 	else if (subformat == SF_FORMAT_PCM_U8 && psf->sf.channels == 2)
 	{	/* sample_rate = 128000000 / (65536 - rate_short) ; */
@@ -474,7 +474,7 @@ voc_write_header (SF_PRIVATE *psf, int calc_length)
 		/*	Now write the VOC_SOUND_DATA section
 		** 		marker, length, rate_const and compression
 		*/
-		psf_binheader_writef (psf, "e1311", BHW1 (VOC_SOUND_DATA), BHW3 ((int) (psf->datalength + 1)), BHW1 (rate_const), BHW1 (0)) ;
+		psf_binheader_writef (psf, "e1311", BHW1 (VOC_SOUND_DATA), BHW3 ((int) (psf->datalength + 2)), BHW1 (rate_const), BHW1 (0)) ;
 		}
 	else
 	{	int length ;
@@ -536,7 +536,8 @@ voc_close	(SF_PRIVATE *psf)
 		unsigned char byte = VOC_TERMINATOR ;
 
 
-		psf_fseek (psf, 0, SEEK_END) ;
+		/* The terminator byte is not part of the audio data. */
+		psf->dataend = psf_fseek (psf, 0, SEEK_END) ;
 
 		/* Write terminator */
 		psf_fwrite (&byte, 1, 1, psf) ;
